@@ -61,8 +61,28 @@ def deliver (s : Sys) (canId : Nat) (data : Bytes) : Sys × String :=
   let (c, log) := notify s.cons canId data s.clock
   ({ s with cons := c, clock := s.clock + 1 }, showLog log)
 
+/-- a frame whose timestamp is `dt` below the clock (0 = the same stamp as the next regular frame
+    would get, 1 = equal to the previous frame's, 2… = older): the clock does not advance -/
+def deliverAt (s : Sys) (canId : Nat) (data : Bytes) (dt : Nat) : Sys × String :=
+  let (c, log) := notify s.cons canId data (s.clock - dt)
+  ({ s with cons := c }, showLog log)
+
 def stepOne (s : Sys) (tok : String) : Sys × String :=
   match tok.splitOn "." with
+  | ["y", id, h, dt] =>
+    (match id.toNat?, parseHex h, dt.toNat? with
+     | some id, some d, some dt => let (s', l) := deliverAt s id d dt; (s', ">" ++ l)
+     | _, _, _ => (s, "bad"))
+  | ["v", m, i, k, v] =>
+    -- a variable of a CONSUMER map is written (the consuming side produces on the shared PDO)
+    (match m.toNat?, i.toNat?, parseVal k v with
+     | some m, some i, some v =>
+       (match s.cons.maps[m]? with
+        | some cm => (match writeVar cm i v with
+          | some cm' => ({ s with cons := { s.cons with maps := s.cons.maps.set m cm' } }, "ok")
+          | none => (s, "err"))
+        | none => (s, "bad"))
+     | _, _, _ => (s, "bad"))
   | ["w", m, i, k, v] =>
     (match m.toNat?, i.toNat?, parseVal k v with
      | some m, some i, some v =>
